@@ -4,11 +4,13 @@ from fractions import Fraction
 from vcheck import Case, hx, flist, parse_vals
 
 PID = "C15"
-RULE = ("non-trivial = a QR case with condition number > 1e3 or a zero in the first column, or a symmetric eigen-case with some "
-        "eigenvalue ratio > 0.5, or with an eigenvector that has a zero component (diagonal / block-diagonal / permuted), or eigenvalues of both signs; "
-        "distinct by case text")
+RULE = ("non-trivial = a QR case with condition number > 1e3, a zero in the first column, a pivot column that is almost reduced already (non-zero part below the diagonal <= 1e-5 of the column) "
+        "or an overall scale beyond 2^+-12, or a symmetric eigen-case with some "
+        "eigenvalue ratio > 0.5, or with an eigenvector that has a zero component (diagonal / block-diagonal / permuted) or is a coordinate vector turned by a tiny angle (nearly diagonal), "
+        "or eigenvalues of both signs, or an overall scale beyond 2^+-12; distinct by case text")
 LEVEL_TEXT = ("Theorems (Coq, over the reals, every dimension n >= 1): for a non-zero first column x the model of Householder_Matrix returns H = 1 - 2 u u^T with u well defined "
-              "(|x - alpha e1|^2 = 2(|x|^2 - alpha x0) >= 2|x|^2 > 0), alpha^2 = |x|^2, H symmetric, H^T H = 1 and H x = alpha e1. "
+              "(|x - alpha e1|^2 = 2(|x|^2 - alpha x0) >= 2|x|^2 > 0), alpha^2 = |x|^2, H symmetric, H^T H = 1 and H x = alpha e1; "
+              "the construction is scale-free, Householder_Matrix(c M) = Householder_Matrix(M) for every c > 0 (C15_Proofs_Scale.v). "
               "The whole column loop of QR_Decomposition (C15_Proofs_QR.v, induction over the passes with the invariant 'Q orthogonal, Q R = M, R zero below the diagonal in the finished columns, "
               "R_submatrix = trailing block of R, finished diagonal entries non-zero'): for every n x n matrix M, n >= 1, the model returns (never exits), and if M is non-singular (M x = 0 -> x = 0; "
               "implied by a left inverse) then in no pass the remaining pivot column is zero, Q^T Q = Q Q^T = 1, R i j = 0 for j < i with non-zero diagonal, and Q R = M entry by entry; "
@@ -22,12 +24,16 @@ LEVEL_TEXT = ("Theorems (Coq, over the reals, every dimension n >= 1): for a non
               "(no theorem relates the model's Determinant to the product), termination and accuracy of the inverse iteration, everything about rounding "
               "(in floating point Q^T Q = 1 and Q R = M hold only to rounding, and the zeros below the diagonal of R exist because the code writes them). "
               "Those clauses are covered by the differential run of the extracted model against the library (bit-identical) and by the S4 predicates on the library's output "
-              "(Q^T Q = 1, R upper triangular, Q R = M; eigenvalues against an independent Jacobi routine, trace, exact-rational determinant; unit eigenvectors with M v = lambda v; termination within the runner's time bound).")
+              "(Q^T Q = 1, R upper triangular, Q R = M norm-wise and column by column; eigenvalues against an independent Jacobi routine, trace, exact-rational determinant; unit eigenvectors with M v = lambda v; termination within the runner's time bound). "
+              "The predicates are scale-free (evaluated on M / 2^e and the outputs / 2^e) and the generators move every operation along a ladder of overall scales 1e-305 .. 1e305, put pivot columns and eigenvector angles "
+              "at relative sizes 1e-16 .. 1e-6, and drive several calls on one Matrix object; where the library leaves the property at the ends of the double range or on nearly diagonal unordered matrices "
+              "the failing clause carries the input region in its signature (known_findings.d/C15.json: K-C15-1..4).")
 LEVEL_NOTE = ("Coq 8.16.1 kernel, theorems over R (axioms of the real numbers as printed by Print Assumptions); hand-written model tied by differential correspondence "
               "(extraction with ExtrOcamlBasic only); every loop of the modelled code is bounded by a literal (200 sweeps, 100 inverse iterations)")
 TOL = (1e-12, 1e-300)
 TRUSTED = ["libm sqrt / fabs are IEEE operations on both sides; the Python references (Jacobi sweeps, Fraction determinant, Gram-Schmidt) are independent of the model"]
 ASSUMPTIONS = ["the symmetric test matrices are Q diag(lambda) Q^T formed in floating point and then symmetrised exactly (M[i][j] = M[j][i])",
+               "overall scales are exact powers of two applied to a matrix of moderate scale, so that condition number and eigenvalue ratios are those of the unscaled matrix",
                "QR_Decomposition of a singular matrix whose remaining first column is exactly zero divides by zero (NaN): outside the quantifier (non-singular matrices)"]
 
 # a call that runs into the runner's time bound is reported by predicates() under "<op>:timeout" (every op)
@@ -79,9 +85,10 @@ def _sym_from(q, lam):
 def _mline(op, m, extra=""): return f"{op} {len(m)} " + " ".join(flist(r) for r in m) + extra
 
 
-def _jacobi(m):
-    """cyclic Jacobi eigenvalue iteration for a symmetric matrix (reference, accurate to a few n eps |M|)"""
-    n = len(m); a = [list(r) for r in m]
+def _jacobi(m, vectors=False):
+    """cyclic Jacobi eigenvalue iteration for a symmetric matrix (reference, accurate to a few n eps |M|); with vectors=True returns
+    (values, vectors) unsorted, vectors[k] belonging to values[k]"""
+    n = len(m); a = [list(r) for r in m]; v = [[1.0 if i == j else 0.0 for j in range(n)] for i in range(n)]
     for _ in range(60):
         off = math.sqrt(math.fsum(a[i][j] ** 2 for i in range(n) for j in range(n) if i != j))
         if off <= 1e-18 * max(_fro(a), 1e-300): break
@@ -95,7 +102,54 @@ def _jacobi(m):
                     akp, akq = a[k][p], a[k][q]; a[k][p] = c * akp - s * akq; a[k][q] = s * akp + c * akq
                 for k in range(n):
                     apk, aqk = a[p][k], a[q][k]; a[p][k] = c * apk - s * aqk; a[q][k] = s * apk + c * aqk
+                if vectors:
+                    for k in range(n):
+                        vkp, vkq = v[k][p], v[k][q]; v[k][p] = c * vkp - s * vkq; v[k][q] = s * vkp + c * vkq
+    if vectors: return [a[i][i] for i in range(n)], [[v[k][i] for k in range(n)] for i in range(n)]
     return sorted(a[i][i] for i in range(n))
+
+
+def _sweeps_estimate(ms):
+    """A priori estimate of the number of sweeps the UNSHIFTED QR iteration needs on the symmetric matrix ms until the mass below the
+    diagonal is 1e-12 of the diagonal: it is subspace iteration started from the coordinate subspaces span(e_1..e_p), whose distance to
+    the dominant invariant subspace shrinks by |lambda_(p+1) / lambda_p| per sweep from its initial value
+    t_p = |W2 W1^-1| (W = eigenvectors, sorted by decreasing |lambda|, restricted to the first p coordinates; W1 its upper p x p part):
+    sweeps_p = ln(max(t_p, 1) * 1e12) / ln |lambda_p / lambda_(p+1)|.  t_p is huge (1 / angle) for a nearly diagonal matrix whose
+    diagonal is not in the order of decreasing magnitude; an exactly singular W1 is skipped."""
+    n = len(ms)
+    # exactly decoupled index sets (connected components of the non-zero pattern, contiguous or interleaved) iterate independently
+    comp = list(range(n))
+    for i in range(n):
+        for j in range(i):
+            if ms[i][j] != 0.0 or ms[j][i] != 0.0:
+                a_, b_ = comp[i], comp[j]
+                if a_ != b_: comp = [a_ if x == b_ else x for x in comp]
+    if len(set(comp)) > 1:
+        return max(_sweeps_estimate([[ms[i][j] for j in range(n) if comp[j] == c] for i in range(n) if comp[i] == c]) for c in set(comp))
+    lam, vec = _jacobi(ms, vectors=True)
+    order = sorted(range(n), key=lambda k: -abs(lam[k])); lam = [lam[k] for k in order]; vec = [vec[k] for k in order]
+    worst = 0.0
+    for p in range(1, n):
+        if lam[p] == 0.0 or abs(lam[p]) >= abs(lam[p - 1]): continue
+        w1 = [[Fraction(vec[i][j]) for j in range(p)] for i in range(p)]; w2 = [[Fraction(vec[i][j]) for j in range(p)] for i in range(p, n)]
+        # X = W2 W1^-1 by exact Gauss-Jordan on the columns (p <= 6)
+        a = [r[:] for r in w1]; b = [r[:] for r in w2]; ok = True
+        for c in range(p):
+            pr = next((r for r in range(c, p) if a[c][r] != 0), None)      # column operations: pivot inside row c
+            if pr is None: ok = False; break
+            if pr != c:
+                for row in a + b: row[c], row[pr] = row[pr], row[c]
+            d = a[c][c]
+            for row in a + b: row[c] /= d
+            for c2 in range(p):
+                if c2 != c:
+                    f = a[c][c2]
+                    if f != 0:
+                        for row in a + b: row[c2] -= f * row[c]
+        if not ok: continue
+        t = math.sqrt(float(sum(x * x for r in b for x in r)))
+        worst = max(worst, math.log(max(t, 1.0) * 1e12) / math.log(abs(lam[p - 1]) / abs(lam[p])))
+    return worst
 
 
 def _det_exact(m):
@@ -113,13 +167,148 @@ def _det_exact(m):
     return det
 
 
+# ---------------------------------------------------------------- scale handling (every reference below works on the matrix scaled to max |entry| in [1/2, 1))
+def _ldexp(x, k):
+    try: return math.ldexp(x, k)
+    except OverflowError: return math.copysign(math.inf, x)
+
+
+def _normalise(m):
+    """(m * 2^-e, e) with the largest finite |entry| of the result in [1/2, 1); exact except for entries that become subnormal"""
+    mx = max((abs(x) for r in m for x in r if isinstance(x, float) and x == x and not math.isinf(x)), default=0.0)
+    if mx == 0.0: return [list(r) for r in m], 0
+    e = math.frexp(mx)[1]
+    return [[_ldexp(x, -e) for x in r] for r in m], e
+
+
+def _scale(m, k): return [[_ldexp(x, k) for x in r] for r in m]
+
+
+def _scale_finite(m, k):
+    """(m * 2^k', k') with k' = k lowered as far as needed for every entry to stay finite"""
+    mx = max((abs(x) for r in m for x in r), default=0.0)
+    if mx > 0.0: k = min(k, 1023 - math.frexp(mx)[1])
+    return _scale(m, k), k
+def _log2(x): return math.log2(x) if x > 0 else -math.inf
+
+
+def _ref_pivots(ms):
+    """|r_ii| of a Householder QR of the (normalised) matrix = the norms of the pivot columns of the successive passes"""
+    n = len(ms); a = [list(r) for r in ms]; piv = []
+    for k in range(n):
+        x = [a[i][k] for i in range(k, n)]; nx = math.sqrt(math.fsum(t * t for t in x)); piv.append(nx)
+        if nx == 0.0: continue
+        alpha = -math.copysign(nx, x[0]); u = list(x); u[0] -= alpha; nu = math.sqrt(math.fsum(t * t for t in u))
+        if nu == 0.0: continue
+        u = [t / nu for t in u]
+        for j in range(k, n):
+            d = 2.0 * math.fsum(u[i] * a[k + i][j] for i in range(n - k))
+            for i in range(n - k): a[k + i][j] -= d * u[i]
+    return piv
+
+
+# Regions of the input space in which the library is known to leave the property (known_findings.d/C15.json); they are computed from the
+# INPUT alone and are appended to the signature of a failing clause, so that the same clause stays checked everywhere else.
+#   norm-overflow / norm-underflow: Vector::Norm and Matrix::Norm are sqrt(sum of squares) without scaling; the squares of a pivot column
+#   leave the double range when its norm is >= 2^511 or lose their bits below 2^-511 sqrt(n) (region taken as >= 2^510, < 2^-505).
+#   iterate-norm-overflow (Eigensystem): the same Norm applied to M_inv b, of length 1 / (1e-8 |M|), i.e. |M| <= 1e8 2^-505.
+#   slow-reordering (exit of Eigenvalues): a priori estimate of the sweeps of the unshifted iteration (_sweeps_estimate) >= 195 of the 200 allowed.
+#   det-underflow: Matrix::Inverse refuses a matrix whose Laplace determinant underflows (exact |det| below the underflow allowance).
+_HI, _LO = 510.0, -505.0
+
+
+def _norm_region(lo, hi, e):
+    """lo, hi: smallest / largest pivot-column norm of the normalised matrix; e its binary exponent"""
+    if _log2(hi) + e >= _HI: return ":norm-overflow"
+    if _log2(lo) + e < _LO: return ":norm-underflow"
+    return ""
+
+
+def _det_allow(n): return 2 * math.factorial(n) * n          # in units of 2^-1074
+
+
+def _shifted_det_underflows(ref, nms, e):
+    """Inverse(M - shift 1) with shift = lambda_i + 1e-8 |M|: is some |det| = 1e-8 |M| prod_{j != i} |lambda_j - shift| below twice the
+    underflow allowance of the Laplace sum?  ref = eigenvalues of the normalised matrix, nms its norm."""
+    n = len(ref)
+    if n < 2: return False
+    for i in range(n):
+        sh = ref[i] + 1e-8 * nms
+        lg = math.fsum(_log2(abs(ref[j] - sh)) for j in range(n)) + n * e
+        if lg < -1074 + math.log2(2 * _det_allow(n)): return True
+    return False
+
+
 # ---------------------------------------------------------------- generators
-def _gen_dense(rng, n):
-    kappa = 10 ** rng.uniform(0, 6); scale = 10 ** rng.uniform(-3, 3)
+def _rel(rng):
+    """a relative size from the geometric ladder 1e-16 .. 1e-6, with the neighbourhood of sqrt(eps) (where squares vanish against 1) over-weighted"""
+    k = rng.random()
+    if k < 0.55: return 10 ** rng.uniform(-16.3, -5.7)
+    if k < 0.85: return 2.0 ** rng.uniform(-30, -24)
+    return rng.choice([2.0 ** -26, 2.0 ** -27, 2.0 ** -26.5, 2.0 ** -25, 1e-8, 1.5e-8, 2e-8, 5e-9, 1e-9, 1e-12, 1e-15, 2.0 ** -52, 2.0 ** -53])
+
+
+# decimal exponents of the overall scale: a ladder from just off 1 to the ends of the double range
+_SCALES = [4, 5, 6, 7, 8, 9, 10, 12, 14, 16, 20, 25, 30, 38, 45, 50, 60, 80, 100, 120, 140, 150, 152, 153, 154, 155, 160, 162, 170, 200, 250, 290, 300, 305]
+
+
+def _pick_scale(rng, tame=False):
+    """(binary exponent, tag); tame: only scales at which every operation is expected to work for n <= 7 (|M| in 1e-38 .. 1e38)"""
+    d = rng.choice([x for x in _SCALES if x <= 38] if tame else _SCALES) * rng.choice([1, -1, -1])
+    return round(d * math.log2(10)), ("scale-huge" if d > 0 else "scale-tiny") + ("-extreme" if abs(d) >= 140 else "")
+
+
+def _gen_dense(rng, n, kmax=6.0):
+    kappa = 10 ** rng.uniform(0, kmax); scale = 10 ** rng.uniform(-3, 3)
     u, v = _rand_orth(rng, n), _rand_orth(rng, n)
     sig = [scale * kappa ** (-(k / (n - 1) if n > 1 else 0.0)) for k in range(n)]
     m = [[math.fsum(u[k][i] * sig[k] * v[k][j] for k in range(n)) for j in range(n)] for i in range(n)]
     return m, kappa
+
+
+def _cond_proxy(m):
+    ms, _ = _normalise(m); p = _ref_pivots(ms)
+    return max(p) / min(p) if min(p) > 0 else math.inf
+
+
+def _gen_near_reduced(rng, n):
+    """non-singular n x n matrices (n >= 2) in which the pivot column of some pass p is ALMOST reduced already: its part below the
+    diagonal is non-zero but smaller than the diagonal entry by a factor from the ladder 1e-16 .. 1e-6.  Returns (m, tag, sub) with
+    sub = the trailing block whose first column is that pivot column."""
+    kind = rng.random()
+    if kind < 0.25:
+        # nearly upper triangular: every entry below the diagonal is its own small multiple of the diagonal entry above it
+        m, _ = _gen_dense(rng, n, 2.0)
+        for i in range(n):
+            for j in range(i): m[i][j] = 0.0
+        for j in range(n):
+            if abs(m[j][j]) < 1e-2 * max(abs(x) for x in m[j]): m[j][j] = math.copysign(max(abs(x) for x in m[j]), m[j][j] or 1.0)
+        same = rng.random() < 0.5; e0 = _rel(rng)
+        for j in range(n - 1):
+            for i in range(j + 1, n):
+                if rng.random() < 0.8: m[i][j] = m[j][j] * (e0 if same else _rel(rng)) * rng.choice([1.0, -1.0]) * rng.uniform(0.5, 1.0)
+        if not any(m[i][0] for i in range(1, n)): m[n - 1][0] = m[0][0] * e0
+        return m, "near-triangular", m
+    p = rng.randint(0, n - 2); k = n - p
+    b, _ = _gen_dense(rng, k, 1.5)
+    d = max(abs(x) for r in b for x in r) * rng.choice([1.0, -1.0]) * rng.uniform(0.3, 3.0)
+    e0 = _rel(rng); b[0][0] = d
+    g = [rng.choice([1.0, -1.0]) * rng.uniform(0.3, 1.0) if rng.random() < 0.7 else 0.0 for _ in range(k - 1)]
+    if not any(g): g[rng.randrange(k - 1)] = 1.0
+    for i in range(1, k): b[i][0] = d * e0 * g[i - 1]
+    if rng.random() < 0.35:                     # the nearly reduced column is short or long compared with the other columns
+        cs_ = 10 ** rng.uniform(-3, 3)
+        for i in range(k): b[i][0] *= cs_
+    m = [[0.0] * n for _ in range(n)]
+    for i in range(p):
+        for j in range(i, n): m[i][j] = rng.gauss(0, 1) * abs(d)
+        m[i][i] = abs(d) * rng.choice([1.0, -1.0]) * rng.uniform(0.5, 2.0)
+    for i in range(k):
+        for j in range(k): m[p + i][p + j] = b[i][j]
+    tag = f"near-reduced-pass{min(p, 2)}{'+' if p > 2 else ''}"
+    if p > 0 and rng.random() < 0.4:            # hidden behind a dense first pass: M -> Q0 M
+        q0 = _rand_orth(rng, n); m = _matmul(q0, m); tag += "-rotated"
+    return m, tag, b
 
 
 def _gen_spectrum(rng, n):
@@ -131,22 +320,36 @@ def _gen_spectrum(rng, n):
     return lam
 
 
+def _rotate_rows(q, i, j, th):
+    c, s = math.cos(th), math.sin(th)
+    qi = [c * a - s * b for a, b in zip(q[i], q[j])]; qj = [s * a + c * b for a, b in zip(q[i], q[j])]
+    q[i], q[j] = qi, qj
+
+
 def _gen_sym(rng, n):
     lam = _gen_spectrum(rng, n)
     kind = rng.random()
-    if n == 1 or kind < 0.15:
+    if n == 1 or kind < 0.12:
         rng.shuffle(lam); q = [[1.0 if i == j else 0.0 for j in range(n)] for i in range(n)]; tag = "diagonal"
-    elif kind < 0.35 and n >= 3:
+    elif kind < 0.30 and n >= 3:
         blocks = []; left = n
         while left > 0:
             b = rng.randint(1, min(3, left)); blocks.append(b); left -= b
         if all(b == 1 for b in blocks): blocks = [2] + [1] * (n - 2)
         rng.shuffle(blocks); rng.shuffle(lam); q = _block_orth(rng, n, blocks)
         tag = "block-diagonal" + ("-with-1x1" if 1 in blocks else "")
-    elif kind < 0.45 and n >= 2:
+        if rng.random() < 0.4:                  # the same block structure on interleaved (non-contiguous) index sets
+            perm = list(range(n)); rng.shuffle(perm); q = [[q[i][perm[j]] for j in range(n)] for i in range(n)]; tag += "-permuted"
+    elif kind < 0.40 and n >= 2:
         # plane rotation in one coordinate plane: all other eigenvectors are coordinate vectors
         rng.shuffle(lam); q = _block_orth(rng, n, [2] + [1] * (n - 2)); perm = list(range(n)); rng.shuffle(perm)
         q = [[q[i][perm[j]] for j in range(n)] for i in range(n)]; tag = "block-diagonal-with-1x1"
+    elif kind < 0.52 and n >= 2:
+        # nearly diagonal: the eigenvectors are the coordinate vectors turned by angles from the ladder 1e-16 .. 1e-6
+        rng.shuffle(lam); q = [[1.0 if i == j else 0.0 for j in range(n)] for i in range(n)]
+        for _ in range(rng.randint(1, n)):
+            i, j = rng.sample(range(n), 2); _rotate_rows(q, i, j, _rel(rng) * rng.choice([1.0, -1.0]))
+        tag = "near-diagonal"
     else:
         q = _rand_orth(rng, n); tag = "dense"
     return _sym_from(q, lam), lam, tag
@@ -155,8 +358,9 @@ def _gen_sym(rng, n):
 def generate(rng, tier):
     cs = []
     big = tier != "quick"
+    T0 = (1e-12, 0.0)                              # scaled cases: no absolute allowance (it would swallow a tiny matrix whole)
     # ---- QR_Decomposition / Householder_Matrix: dense non-singular, kappa up to 1e6, sizes 1..7
-    for _ in range(4000 if big else 350):
+    for _ in range(4000 if big else 300):
         n = rng.randint(1, 7)
         m, kappa = _gen_dense(rng, n)
         k = rng.random()
@@ -175,31 +379,55 @@ def generate(rng, tier):
             p = list(range(n)); rng.shuffle(p); s = 10 ** rng.uniform(-3, 3)
             m = [[s * rng.choice([1.0, -1.0]) if p[i] == j else 0.0 for j in range(n)] for i in range(n)]
             tags.append("permutation")
+        elif k < 0.24 and n > 1:                    # leading entry tiny against the rest of the column (cancellation-free branch of alpha)
+            m[0][0] = max(abs(m[i][0]) for i in range(1, n)) * _rel(rng) * rng.choice([1.0, -1.0]); tags.append("tiny-leading-entry")
+        elif k < 0.30 and n > 1:                    # columns of very different length (column scaling within the condition bound)
+            m, kappa = _gen_dense(rng, n, 1.0); g = [10 ** rng.uniform(-2.5, 2.5) for _ in range(n)]
+            m = [[m[i][j] * g[j] for j in range(n)] for i in range(n)]; kappa = kappa * max(g) / min(g); tags.append("graded-columns")
+        if rng.random() < 0.2:
+            e, st = _pick_scale(rng); m, e = _scale_finite(m, e); tags.append(st)
         if _det_exact(m) == 0: continue
-        cs.append(Case(_mline("qr", m), tags, info={"kappa": kappa}))
-        if rng.random() < 0.3: cs.append(Case(_mline("householder", m), ["householder", f"n={n}"]))
+        cs.append(Case(_mline("qr", m), tags, tol=T0, info={"kappa": kappa}))
+        if rng.random() < 0.3: cs.append(Case(_mline("householder", m), ["householder", f"n={n}"] + tags[2:], tol=T0))
+    # ---- QR: pivot columns that are almost reduced already (sub-column at 1e-16 .. 1e-6 of the diagonal entry), in any pass
+    for _ in range(3000 if big else 260):
+        n = rng.randint(2, 7)
+        m, tag, sub = _gen_near_reduced(rng, n)
+        if _det_exact(m) == 0 or not _cond_proxy(m) <= 1e6: continue
+        tags = ["qr", f"n={n}", "near-reduced", tag]
+        if rng.random() < 0.15:
+            e, st = _pick_scale(rng); m, e = _scale_finite(m, e); sub = _scale(sub, e); tags.append(st)
+        cs.append(Case(_mline("qr", m), tags, tol=T0, info={"kappa": 1.0}))
+        if rng.random() < 0.5: cs.append(Case(_mline("householder", sub), ["householder", f"n={len(sub)}", "near-reduced"] + tags[4:], tol=T0))
     for m in ([[1.0]], [[-2.5]], [[1.0, 0.0], [0.0, 1.0]], [[0.0, 1.0], [1.0, 0.0]], [[2.0, 0.0, 0.0], [0.0, 3.0, 0.0], [0.0, 0.0, 5.0]]):
         cs.append(Case(_mline("qr", m), ["qr", "special"]))
         cs.append(Case(_mline("householder", m), ["householder", "special"]))
     cs.append(Case(_mline("qr", [[1.0, 2.0, 3.0], [4.0, 5.0, 6.0]]), ["qr-guard"]))
     # ---- Determinant / Inverse as called by the inverse iteration (ties the model of Matrix::Inverse)
     for _ in range(600 if big else 60):
-        n = rng.randint(1, 6); m, _ = _gen_dense(rng, n)
-        cs.append(Case(_mline("det", m), ["det"])); cs.append(Case(_mline("inverse", m), ["inverse"], tol=(1e-9, 1e-300)))
+        n = rng.randint(1, 6); m, _ = _gen_dense(rng, n); tags = []
+        if rng.random() < 0.3:
+            e, st = _pick_scale(rng); m, e = _scale_finite(m, e); tags.append(st)
+        cs.append(Case(_mline("det", m), ["det"] + tags, tol=T0)); cs.append(Case(_mline("inverse", m), ["inverse"] + tags, tol=(1e-9, 0.0)))
     cs.append(Case(_mline("inverse", [[1.0, 2.0], [2.0, 4.0]]), ["inverse", "singular"]))
     cs.append(Case(_mline("inverse", [[0.0, 1.0], [1.0, 0.0]]), ["inverse", "pivot"]))
     # ---- Eigenvalues / Eigensystem / Eigenvectors on symmetric Q diag(lambda) Q^T
-    for k in range(3000 if big else 260):
+    for k in range(3000 if big else 300):
         n = rng.randint(1, 7) if k % 4 else rng.randint(1, 3)
         m, lam, tag = _gen_sym(rng, n)
         tags = [tag, f"n={n}"]
-        cs.append(Case(_mline("eigenvalues", m), ["eigenvalues"] + tags, tol=(1e-9, 1e-300), info={"lam": lam}))
-        if True: cs.append(Case(_mline("eigensystem", m), ["eigensystem"] + tags, tol=(1e-7, 1e-300), info={"lam": lam}))
-        if rng.random() < 0.15: cs.append(Case(_mline("eigenvectors", m), ["eigenvectors"] + tags, tol=(1e-7, 1e-300), info={"lam": lam}))
+        if k % 3 == 0:                              # overall scale: every third matrix is moved along the ladder by an exact power of two
+            e, st = _pick_scale(rng, tame=(k % 2 == 0)); m, e = _scale_finite(m, e); lam = [_ldexp(x, e) for x in lam]; tags.append(st)
+        ta = 0.0 if len(tags) > 2 else 1e-300
+        cs.append(Case(_mline("eigenvalues", m), ["eigenvalues"] + tags, tol=(1e-9, ta), info={"lam": lam}))
+        cs.append(Case(_mline("eigensystem", m), ["eigensystem"] + tags, tol=(1e-7, ta), info={"lam": lam}))
+        if rng.random() < 0.15: cs.append(Case(_mline("eigenvectors", m), ["eigenvectors"] + tags, tol=(1e-7, ta), info={"lam": lam}))
+        if rng.random() < 0.10: cs.append(Case(_mline("history", m), ["history"] + tags, tol=(1e-7, ta), info={"lam": lam}))
     for m in ([[2.0, 0.0, 0.0], [0.0, 3.0, 0.0], [0.0, 0.0, 5.0]], [[4.0]], [[2.0, 1.0], [1.0, 2.0]],
               [[2.0, -1.0, 0.0], [-1.0, 2.0, -1.0], [0.0, -1.0, 2.0]], [[4.0, 1.0, 0.0], [1.0, 3.0, 0.0], [0.0, 0.0, 1.0]]):
         cs.append(Case(_mline("eigenvalues", m), ["eigenvalues", "special"], tol=(1e-9, 1e-300)))
         cs.append(Case(_mline("eigensystem", m), ["eigensystem", "special"], tol=(1e-7, 1e-300)))
+        cs.append(Case(_mline("history", m), ["history", "special"], tol=(1e-7, 1e-300)))
     return cs
 
 
@@ -216,22 +444,126 @@ def _read_mat(vals, k):
     return [[e[i * cdim + j] for j in range(cdim)] for i in range(r)], k + 2 + r * cdim
 
 
+def _read_list(vals, k):
+    ln = vals[k]; return vals[k + 1:k + 1 + ln], k + 1 + ln
+
+
+def _read_vecs(vals, k):
+    nv = vals[k]; k += 1; vs = []
+    for _ in range(nv):
+        v, k = _read_list(vals, k); vs.append(v)
+    return vs, k
+
+
 def _has_1x1_block(m):
     n = len(m)
     return any(all(m[i][j] == 0.0 and m[j][i] == 0.0 for j in range(n) if j != i) for i in range(n))
 
 
+def _near_reduced(m):
+    """some pivot column of a pass has a non-zero part below the diagonal that is at most 1e-5 of the column"""
+    n = len(m)
+    if n < 2 or any(len(r) != n for r in m): return False
+    ms, _ = _normalise(m); a = [list(r) for r in ms]
+    for k in range(n - 1):
+        x = [a[i][k] for i in range(k, n)]; nx = math.sqrt(math.fsum(t * t for t in x)); lowpart = math.sqrt(math.fsum(t * t for t in x[1:]))
+        if nx == 0.0: return False
+        if 0.0 < lowpart <= 1e-5 * nx: return True
+        alpha = -math.copysign(nx, x[0]); u = list(x); u[0] -= alpha; nu = math.sqrt(math.fsum(t * t for t in u)); u = [t / nu for t in u]
+        for j in range(k, n):
+            d = 2.0 * math.fsum(u[i] * a[k + i][j] for i in range(n - k))
+            for i in range(n - k): a[k + i][j] -= d * u[i]
+    return False
+
+
 def nontrivial(c, io):
     op, m, _ = _case_matrix(c); n = len(m)
+    ms, e = _normalise(m)
     if op == "qr":
-        return c.info.get("kappa", 1.0) > 1e3 or any(m[i][0] == 0.0 for i in range(n)) or "guard" in " ".join(c.tags)
-    if op in ("eigenvalues", "eigensystem", "eigenvectors"):
+        return c.info.get("kappa", 1.0) > 1e3 or any(m[i][0] == 0.0 for i in range(n)) or "guard" in " ".join(c.tags) or abs(e) > 12 or _near_reduced(m)
+    if op in ("eigenvalues", "eigensystem", "eigenvectors", "history"):
         lam = c.info.get("lam")
         if not lam: return True
         srt = sorted((abs(x) for x in lam), reverse=True)
         ratio = max((b / a for a, b in zip(srt, srt[1:])), default=0.0)
-        return ratio > 0.5 or any(t.startswith(("diagonal", "block")) for t in c.tags) or (min(lam) < 0 < max(lam))
+        return ratio > 0.5 or any(t.startswith(("diagonal", "block", "near-diagonal")) for t in c.tags) or (min(lam) < 0 < max(lam)) or abs(e) > 12
     return False
+
+
+# ---------------------------------------------------------------- S4 predicates (scale-free: every clause is evaluated on M / 2^e and the outputs / 2^e)
+def _isnan(x): return isinstance(x, float) and math.isnan(x)
+
+
+def _pred_qr(m, q, r):
+    """clauses of 'Q orthogonal, R upper triangular, Q R = M to rounding' for a non-singular square M"""
+    out = []; n = len(m)
+    ms, e = _normalise(m); nm = _fro(ms)
+    piv = _ref_pivots(ms); reg = _norm_region(min(piv), max(piv), e)
+    if len(q) != n or len(r) != n or any(len(x) != n for x in q + r): return [("qr:shape", "Q or R is not n x n")]
+    if any(_isnan(x) or (isinstance(x, float) and math.isinf(x)) for row in q + r for x in row): return [("qr:nan" + reg, "Q or R contains NaN or an infinity for a non-singular matrix")]
+    rs = _scale(r, -e)
+    # slack: every sweep multiplies by an explicitly formed reflector P (entries off by <= 8 eps), an n-term inner product
+    # adds n eps; n sweeps => n (n + 8 sqrt n) eps |M|, taken as 4 n (n + 8) eps
+    sl = 4 * n * (n + 8) * EPS
+    g = _matmul(_tr(q), q)
+    bad = max(abs(g[i][j] - (1.0 if i == j else 0.0)) for i in range(n) for j in range(n))
+    if not bad <= sl: out.append(("qr:orthogonal" + reg, f"max |Q^T Q - 1| = {bad!r} > {sl!r}"))
+    low = [(i, j) for i in range(n) for j in range(i) if r[i][j] != 0.0]
+    if low: out.append(("qr:upper-triangular" + reg, f"R{low[0]} = {r[low[0][0]][low[0][1]]!r} is not zero"))
+    p = _matmul(q, rs)
+    bad = max(abs(p[i][j] - ms[i][j]) for i in range(n) for j in range(n))
+    if not bad <= sl * nm: out.append(("qr:product" + reg, f"max |Q R - M| / 2^{e} = {bad!r} > {sl * nm!r} (|M| / 2^{e} = {nm!r})"))
+    else:
+        # the reflections act on every column of M separately: the same bound holds column by column, relative to the length of that column
+        for j in range(n):
+            cn = math.sqrt(math.fsum(ms[i][j] ** 2 for i in range(n))); bad = max(abs(p[i][j] - ms[i][j]) for i in range(n))
+            if not bad <= sl * cn:
+                out.append(("qr:product-columnwise" + reg, f"column {j}: max |Q R - M| / 2^{e} = {bad!r} > {sl * cn!r} (length of the column / 2^{e} = {cn!r})")); break
+    return out
+
+
+def _pred_eigenvalues(m, ev, ref, e, reg):
+    out = []; n = len(m); ms, _ = _normalise(m); nm = _fro(ms)
+    # a priori slack for the eigenvalues: convergence tolerance (sub-diagonal mass < 1e-12 * sum |lambda|) + rounding of <= 200 sweeps
+    sl_ev = (1e-12 * n + 200 * 4 * n * (n + 8) * EPS) * nm
+    if len(ev) != n: return [("eigenvalues:count", f"{len(ev)} eigenvalues for a {n} x {n} matrix")]
+    if any(_isnan(x) or math.isinf(x) for x in ev): return [("eigenvalues:nan" + reg, "NaN or infinite eigenvalue")]
+    evs = [_ldexp(x, -e) for x in ev]
+    bad = max(abs(a - b) for a, b in zip(sorted(evs), ref))
+    if not bad <= sl_ev: out.append(("eigenvalues:spectrum" + reg, f"eigenvalues / 2^{e} {sorted(evs)!r} differ from the Jacobi reference {ref!r} by {bad!r} > {sl_ev!r}"))
+    tr = math.fsum(ms[i][i] for i in range(n))
+    if not abs(math.fsum(evs) - tr) <= n * sl_ev: out.append(("eigenvalues:trace" + reg, f"sum / 2^{e} {math.fsum(evs)!r} differs from the trace {tr!r}"))
+    det = _det_exact(ms); prod = Fraction(1)
+    for x in evs: prod *= Fraction(x)
+    rel = math.fsum(sl_ev / abs(x) for x in ref) * 1.01 + 64 * EPS if all(ref) else math.inf
+    if rel < math.inf and not abs(prod - det) <= abs(det) * Fraction(rel):
+        out.append(("eigenvalues:determinant" + reg, f"product / 2^{n * e} {float(prod)!r} differs from the determinant {float(det)!r} (relative slack {rel!r})"))
+    return out
+
+
+def _pred_eigenpairs(m, ev, vs, ref, e, reg, what):
+    """ev = None: Eigenvectors (lambda := Rayleigh quotient of the returned vector)"""
+    out = []; n = len(m); ms, _ = _normalise(m); nm = _fro(ms)
+    sl_ev = (1e-12 * n + 200 * 4 * n * (n + 8) * EPS) * nm
+    if len(vs) != n or any(len(v) != n for v in vs) or (ev is not None and len(ev) != n): return [("eigensystem:count", f"{len(vs)} eigenvectors for a {n} x {n} matrix")]
+    if any(_isnan(x) or math.isinf(x) for v in vs for x in v) or (ev is not None and any(_isnan(x) or math.isinf(x) for x in ev)): return [("eigensystem:nan" + reg, f"{what}: NaN in an eigenpair")]
+    evs = None if ev is None else [_ldexp(x, -e) for x in ev]
+    # residual slack: the loop stops when the change of b is < 1e-15 or after 100 steps; with contraction factor
+    # delta/gap <= 1/2 the error of the last iterate is rounding of the explicit inverse; 1e-8 |M| leaves room for the
+    # explicit inverse of the nearly singular shifted matrix (condition 1e8)
+    sl_res = 1e-8 * nm
+    for idx, v in enumerate(vs):
+        nv_ = math.sqrt(math.fsum(x * x for x in v))
+        if not abs(nv_ - 1.0) <= 8 * n * EPS: out.append(("eigensystem:unit" + reg, f"{what}: eigenvector {idx} has norm {nv_!r}")); break
+        mv = [math.fsum(ms[i][j] * v[j] for j in range(n)) for i in range(n)]
+        lam = evs[idx] if evs is not None else math.fsum(v[i] * mv[i] for i in range(n))
+        res = math.sqrt(math.fsum((mv[i] - lam * v[i]) ** 2 for i in range(n)))
+        if not res <= sl_res: out.append(("eigensystem:residual" + reg, f"{what}: |M v - lambda v| / 2^{e} = {res!r} > {sl_res!r} for eigenpair {idx} (lambda / 2^{e} = {lam!r})")); break
+    # "for each eigenvalue": the returned pairs cover the whole spectrum (no eigenvalue returned twice, none missed)
+    got = sorted(evs) if evs is not None else sorted(math.fsum(v[i] * math.fsum(ms[i][j] * v[j] for j in range(n)) for i in range(n)) for v in vs)
+    bad = max(abs(a - b) for a, b in zip(got, ref))
+    if not bad <= max(sl_ev, sl_res): out.append(("eigensystem:spectrum" + reg, f"{what}: eigenvalues of the returned pairs / 2^{e} {got!r} differ from the Jacobi reference {ref!r} by {bad!r}"))
+    return out
 
 
 def predicates(c, io):
@@ -241,93 +573,80 @@ def predicates(c, io):
     if io.startswith(("CRASH", "SANITIZER", "HARNESSERR")): return out
     o = parse_vals(io)
     exited = io.startswith("EXIT"); timeout = io.startswith("TIMEOUT")
-    nm = _fro(m)
     if op == "qr":
         if any(len(r) != n for r in m):
             if not exited: out.append(("qr:guard", "QR_Decomposition accepted a non-square matrix"))
             return out
-        if exited or timeout: return [("qr:exit", f"QR_Decomposition ended with {io} on a non-singular square matrix")]
+        if exited or timeout:
+            ms, e = _normalise(m); piv = _ref_pivots(ms)
+            return [("qr:exit" + _norm_region(min(piv), max(piv), e), f"QR_Decomposition ended with {io} on a non-singular square matrix")]
         q, k = _read_mat(o, 0); r, _ = _read_mat(o, k)
-        if len(q) != n or len(r) != n or any(len(x) != n for x in q + r): return [("qr:shape", "Q or R is not n x n")]
-        if any(isinstance(x, float) and math.isnan(x) for row in q + r for x in row): return [("qr:nan", "Q or R contains NaN for a non-singular matrix")]
-        # slack: every sweep multiplies by an explicitly formed reflector P (entries off by <= 8 eps), an n-term inner product
-        # adds n eps; n sweeps => n (n + 8 sqrt n) eps |M|, taken as 4 n (n + 8) eps
-        sl = 4 * n * (n + 8) * EPS
-        g = _matmul(_tr(q), q)
-        bad = max(abs(g[i][j] - (1.0 if i == j else 0.0)) for i in range(n) for j in range(n))
-        if not bad <= sl: out.append(("qr:orthogonal", f"max |Q^T Q - 1| = {bad!r} > {sl!r}"))
-        low = [(i, j) for i in range(n) for j in range(i) if r[i][j] != 0.0]
-        if low: out.append(("qr:upper-triangular", f"R{low[0]} = {r[low[0][0]][low[0][1]]!r} is not zero"))
-        p = _matmul(q, r)
-        bad = max(abs(p[i][j] - m[i][j]) for i in range(n) for j in range(n))
-        if not bad <= sl * nm: out.append(("qr:product", f"max |Q R - M| = {bad!r} > {sl * nm!r} (|M| = {nm!r})"))
+        out += _pred_qr(m, q, r)
     elif op == "householder":
         if exited or timeout: return [("householder:exit", f"Householder_Matrix ended with {io}")]
         h, _ = _read_mat(o, 0); x = [m[i][0] for i in range(n)]
         if not any(x): return out                 # zero column: division by zero, outside the quantifier
+        mx = max(abs(t) for t in x); e = math.frexp(mx)[1]; x = [_ldexp(t, -e) for t in x]
+        nx = math.sqrt(math.fsum(t * t for t in x)); reg = _norm_region(nx, nx, e)
+        if any(_isnan(t) or math.isinf(t) for row in h for t in row): return [("householder:nan" + reg, "H contains NaN for a non-zero column")]
         sl = 16 * n * EPS
         g = _matmul(_tr(h), h)
-        if not max(abs(g[i][j] - (1.0 if i == j else 0.0)) for i in range(n) for j in range(n)) <= sl: out.append(("householder:orthogonal", "H^T H differs from 1"))
-        if any(abs(h[i][j] - h[j][i]) > sl for i in range(n) for j in range(n)): out.append(("householder:symmetric", "H is not symmetric"))
-        hx_ = [math.fsum(h[i][j] * x[j] for j in range(n)) for i in range(n)]; nx = math.sqrt(math.fsum(t * t for t in x))
-        if not (abs(abs(hx_[0]) - nx) <= sl * nx and all(abs(t) <= sl * nx for t in hx_[1:])): out.append(("householder:reflects", f"H x = {hx_!r} is not +-|x| e1 (|x| = {nx!r})"))
-        if x[0] != 0 and not hx_[0] * x[0] < 0: out.append(("householder:sign", "alpha does not have the sign opposite to x0"))
-    elif op in ("eigenvalues", "eigensystem", "eigenvectors"):
+        if not max(abs(g[i][j] - (1.0 if i == j else 0.0)) for i in range(n) for j in range(n)) <= sl: out.append(("householder:orthogonal" + reg, "H^T H differs from 1"))
+        if any(abs(h[i][j] - h[j][i]) > sl for i in range(n) for j in range(n)): out.append(("householder:symmetric" + reg, "H is not symmetric"))
+        hx_ = [math.fsum(h[i][j] * x[j] for j in range(n)) for i in range(n)]
+        if not (abs(abs(hx_[0]) - nx) <= sl * nx and all(abs(t) <= sl * nx for t in hx_[1:])): out.append(("householder:reflects" + reg, f"H x / 2^{e} = {hx_!r} is not +-|x| e1 (|x| / 2^{e} = {nx!r})"))
+        if x[0] != 0 and not hx_[0] * x[0] < 0: out.append(("householder:sign" + reg, "alpha does not have the sign opposite to x0"))
+    elif op in ("eigenvalues", "eigensystem", "eigenvectors", "history"):
         cls = ":exact-eigenvalue-shift" if _has_1x1_block(m) else ""
         pre = "eigenvalues" if op == "eigenvalues" else "eigensystem"       # Eigenvectors(M) is Eigensystem(M).second
-        if timeout: return [(f"{pre}:timeout", f"{op} did not terminate within the time bound")]
+        ms, e = _normalise(m); ref = _jacobi(ms); nms = _fro(ms)
+        reg = _norm_region(min(abs(x) for x in ref), nms, e)
+        # Eigensystem only: the inverse-iteration vector M_inv b has length up to 1 / (1e-8 |M|) before it is normalised
+        reg_sys = reg or (":iterate-norm-overflow" if _log2(nms) + e <= math.log2(1e8) - 505.0 else "")
+        if timeout: return [(f"{pre}:timeout" + reg, f"{op} did not terminate within the time bound")]
         if exited:
-            if op == "eigenvalues": return [("eigenvalues:exit", "Eigenvalues terminated the process on a symmetric matrix with separated eigenvalues")]
+            # the 200 sweeps of the unshifted iteration are known not to suffice where the a priori estimate of the sweep count exceeds them
+            if not reg and _sweeps_estimate(ms) >= 195.0: reg = ":slow-reordering"
+            if op == "eigenvalues": return [("eigenvalues:exit" + reg, "Eigenvalues terminated the process on a symmetric matrix with separated eigenvalues")]
+            if not reg and _shifted_det_underflows(ref, nms, e): reg = ":det-underflow"
             # ':exact-eigenvalue-shift' marks the input class of the repaired defect (M has a row whose off-diagonal entries are all zero)
-            return [("eigensystem:exit" + cls, f"{op} terminated the process on a symmetric matrix with separated eigenvalues")]
-        # a priori slack for the eigenvalues: convergence tolerance (sub-diagonal mass < 1e-12 * sum |lambda|) + rounding of <= 200 sweeps
-        sl_ev = (1e-12 * n + 200 * 4 * n * (n + 8) * EPS) * nm
-        ref = _jacobi(m)
+            return [("eigensystem:exit" + cls + reg, f"{op} terminated the process on a symmetric matrix with separated eigenvalues")]
         if op == "eigenvalues":
-            ev = o[1:1 + o[0]]
-            if len(ev) != n: return [("eigenvalues:count", f"{len(ev)} eigenvalues for a {n} x {n} matrix")]
-            if any(math.isnan(x) for x in ev): return [("eigenvalues:nan", "NaN eigenvalue")]
-            bad = max(abs(a - b) for a, b in zip(sorted(ev), ref))
-            if not bad <= sl_ev: out.append(("eigenvalues:spectrum", f"eigenvalues {sorted(ev)!r} differ from the Jacobi reference {ref!r} by {bad!r} > {sl_ev!r}"))
-            tr = math.fsum(m[i][i] for i in range(n))
-            if not abs(math.fsum(ev) - tr) <= n * sl_ev: out.append(("eigenvalues:trace", f"sum {math.fsum(ev)!r} differs from the trace {tr!r}"))
-            det = _det_exact(m); prod = Fraction(1)
-            for x in ev: prod *= Fraction(x)
-            rel = math.fsum(sl_ev / abs(x) for x in ref) * 1.01 + 64 * EPS
-            if not abs(prod - det) <= abs(det) * Fraction(rel): out.append(("eigenvalues:determinant", f"product {float(prod)!r} differs from the determinant {float(det)!r} (relative slack {rel!r})"))
+            ev, _ = _read_list(o, 0)
+            out += _pred_eigenvalues(m, ev, ref, e, reg)
+        elif op == "eigensystem":
+            ev, k = _read_list(o, 0); vs, _ = _read_vecs(o, k)
+            out += _pred_eigenpairs(m, ev, vs, ref, e, reg_sys, "Eigensystem")
+        elif op == "eigenvectors":
+            vs, _ = _read_vecs(o, 0)
+            out += _pred_eigenpairs(m, None, vs, ref, e, reg_sys, "Eigenvectors")
         else:
-            k = 0
-            if op == "eigensystem":
-                ev = o[1:1 + o[0]]; k = 1 + o[0]
-            nv = o[k]; k += 1; vs = []
-            for _ in range(nv):
-                ln = o[k]; vs.append(o[k + 1:k + 1 + ln]); k += 1 + ln
-            if nv != n or any(len(v) != n for v in vs): return [("eigensystem:count", f"{nv} eigenvectors for a {n} x {n} matrix")]
-            if any(math.isnan(x) for v in vs for x in v): return [("eigensystem:nan", "NaN in an eigenvector")]
-            # residual slack: the loop stops when the component-wise relative change of b is <= 1e-10; with contraction factor
-            # delta/gap <= 1/2 the error of the last iterate is <= 1e-10 sqrt(n), the residual <= 2 |M| 1e-10 sqrt(n) <= 6e-10 |M|;
-            # 1e-8 |M| leaves room for the explicit inverse of the nearly singular shifted matrix
-            sl_res = 1e-8 * nm
-            for idx, v in enumerate(vs):
-                nv_ = math.sqrt(math.fsum(x * x for x in v))
-                if not abs(nv_ - 1.0) <= 8 * n * EPS: out.append(("eigensystem:unit", f"eigenvector {idx} has norm {nv_!r}")); break
-                mv = [math.fsum(m[i][j] * v[j] for j in range(n)) for i in range(n)]
-                lam = ev[idx] if op == "eigensystem" else math.fsum(v[i] * mv[i] for i in range(n))
-                res = math.sqrt(math.fsum((mv[i] - lam * v[i]) ** 2 for i in range(n)))
-                if not res <= sl_res: out.append(("eigensystem:residual", f"|M v - lambda v| = {res!r} > {sl_res!r} for eigenpair {idx} (lambda = {lam!r})")); break
-            # "for each eigenvalue": the returned pairs cover the whole spectrum (no eigenvalue returned twice, none missed)
-            got = sorted(ev) if op == "eigensystem" else sorted(math.fsum(v[i] * math.fsum(m[i][j] * v[j] for j in range(n)) for i in range(n)) for v in vs)
-            bad = max(abs(a - b) for a, b in zip(got, ref))
-            if not bad <= max(sl_ev, sl_res): out.append(("eigensystem:spectrum", f"eigenvalues of the returned pairs {got!r} differ from the Jacobi reference {ref!r} by {bad!r}"))
+            # one Matrix object through Eigensystem, Eigenvectors, Eigenvalues, QR_Decomposition, Eigensystem: every answer must satisfy
+            # its clauses for the ORIGINAL matrix, equal requests must get equal answers, and the argument must come back unchanged
+            ev1, k = _read_list(o, 0); vs1, k = _read_vecs(o, k); vs2, k = _read_vecs(o, k); ev3, k = _read_list(o, k)
+            q, k = _read_mat(o, k); r, k = _read_mat(o, k); ev4, k = _read_list(o, k); vs4, k = _read_vecs(o, k); same = o[k]
+            out += _pred_eigenpairs(m, ev1, vs1, ref, e, reg_sys, "Eigensystem (first call on the object)")
+            out += _pred_eigenpairs(m, None, vs2, ref, e, reg_sys, "Eigenvectors (second call on the object)")
+            out += _pred_eigenvalues(m, ev3, ref, e, reg)
+            out += _pred_qr(m, q, r)
+            out += _pred_eigenpairs(m, ev4, vs4, ref, e, reg_sys, "Eigensystem (fifth call on the object)")
+            if not (vs2 == vs1 and vs4 == vs1 and ev4 == ev1): out.append(("history:repeatable", "the same request on the same Matrix object was answered differently the second time"))
+            if same != 1: out.append(("history:argument-unchanged", "the Matrix passed by reference differs from its copy after the calls"))
     elif op in ("det", "inverse") and timeout:
         out.append((f"{op}:timeout", f"{op} did not terminate within the time bound"))
     elif op == "det":
         if exited: return [("det:exit", "Determinant terminated the process")]
-        det = _det_exact(m); sc = nm ** n
-        if not abs(Fraction(o[0]) - det) <= Fraction(64 * math.factorial(min(n, 6)) * EPS * sc): out.append(("det:value", f"Determinant = {o[0]!r}, exact value {float(det)!r}"))
+        ms, e = _normalise(m); det = _det_exact(ms); nm = _fro(ms)
+        # scale-free: compare det / 2^(n e); skipped where the determinant or one of its n! products is outside the double range
+        if abs(n * e) + 60 < 1000:
+            got = Fraction(o[0]) / Fraction(2) ** (n * e) if not (_isnan(o[0]) or math.isinf(o[0])) else None
+            allow = Fraction(64 * math.factorial(min(n, 6)) * EPS * nm ** n) + Fraction(_det_allow(n)) * Fraction(2) ** (-1074 - n * e)
+            if got is None or not abs(got - det) <= allow: out.append(("det:value", f"Determinant = {o[0]!r}, exact value {float(det)!r} * 2^{n * e}"))
     elif op == "inverse":
         det = _det_exact(m)
         if det == 0:
             if not exited: out.append(("inverse:singular", "Inverse returned for an exactly singular matrix"))
-        elif exited: out.append(("inverse:exit", "Inverse terminated the process on a non-singular matrix"))
+        elif exited:
+            reg = ":det-underflow" if n >= 2 and abs(det) < Fraction(2 * _det_allow(n)) * Fraction(2) ** -1074 else ""
+            out.append(("inverse:exit" + reg, "Inverse terminated the process on a non-singular matrix"))
     return out
